@@ -47,9 +47,9 @@ def objects(obj):
         if len(p) >= 8 and p[3] in ('OBJECT', 'TLS', 'COMMON'):
             ndx = p[6]
             if ndx == 'COM':
-                res.append((p[7], '.bss.COMMON', int(p[2]), False))
+                res.append((p[7], '.bss.COMMON', int(p[2], 0), False))
             elif ndx.isdigit():
-                res.append((p[7], secs[int(ndx)][0], int(p[2]), p[3] == 'TLS'))
+                res.append((p[7], secs[int(ndx)][0], int(p[2], 0), p[3] == 'TLS'))  # readelf prints sizes >= 100000 in hex
     return res
 
 
